@@ -401,6 +401,23 @@ def Drv.freshOp (d : Drv) (p : Int) (mk : List VGroup → List VEv) : Drv :=
   | none => d.bad
   | some gs => { d with fresh := runV d.fresh (mk gs) }
 
+/-- `dev pod` (redef = false: a new pod id) / `dev repod` (redef = true: replaces the definition of a known pod) -/
+def Drv.definePod (d : Drv) (redef : Bool) (rest : List String) : Drv :=
+  match ints? rest with
+  | some (p :: node :: n :: more) =>
+    if n < 0 ∨ (d.podGroups p).isSome ≠ redef then d.bad else
+    match parseItemsR n.toNat more with
+    | some (items, tail) =>
+      let vfs? := if tail.isEmpty then some (items.map fun _ => []) else parseVFs n.toNat tail
+      match vfs? with
+      | some vfs =>
+        if items.all (fun x => itemOK x.2) && vfs.all (fun l => l.all (fun b => decide (0 ≤ b))) then
+          { d with pods := d.pods.filter (fun x => x.id ≠ p) ++ [{ id := p, groups := mkVGroups p node (items.zip vfs) }] }
+        else d.bad
+      | none => d.bad
+    | none => d.bad
+  | _ => d.bad
+
 def stepLine (d : Drv) (line : String) : Drv :=
   match toks line with
   | "dev" :: "inv" :: rest =>
@@ -411,21 +428,10 @@ def stepLine (d : Drv) (line : String) : Drv :=
       let inv := d.inv.filter (fun e => !(slotMatches n t m e.1))
       { d with inv := inv ++ [((n, t, m, 0), v0), ((n, t, m, 1), v1), ((n, t, m, 2), v2)] }
     | _ => d.bad
-  | "dev" :: "pod" :: rest =>
-    match ints? rest with
-    | some (p :: node :: n :: more) =>
-      if n < 0 ∨ (d.podGroups p).isSome then d.bad else
-      match parseItemsR n.toNat more with
-      | some (items, tail) =>
-        let vfs? := if tail.isEmpty then some (items.map fun _ => []) else parseVFs n.toNat tail
-        match vfs? with
-        | some vfs =>
-          if items.all (fun x => itemOK x.2) && vfs.all (fun l => l.all (fun b => decide (0 ≤ b))) then
-            { d with pods := d.pods ++ [{ id := p, groups := mkVGroups p node (items.zip vfs) }] }
-          else d.bad
-        | none => d.bad
-      | none => d.bad
-    | _ => d.bad
+  | "dev" :: "pod" :: rest => d.definePod false rest
+  -- ext5: `dev repod <p> …` (same shape as `dev pod`): the NEXT scheduling cycle of pod p, which is not in any cache
+  -- at this point (its previous cycle was unreserved), allocates something else
+  | "dev" :: "repod" :: rest => d.definePod true rest
   | ["dev", "add", p, via] =>
     match int? p, int? via with
     | some p, some v => if v < 0 ∨ v > 2 then d.bad else d.liveOp p (fun gs => gs.map VEv.add)
